@@ -14,15 +14,10 @@ open S3db S3db.AList S3db.Row
 structure SEntry (V : Type) where
   mod : Int
   row : ARow V
-deriving Repr
+deriving DecidableEq, Repr
 
 variable {K V : Type} [DecidableEq K]
 
-instance [DecidableEq V] : DecidableEq (ACol V) := inferInstance
-instance [DecidableEq V] : DecidableEq (ARow V) := fun a b => by
-  cases a; cases b; simp only [ARow.mk.injEq]; exact inferInstance
-instance [DecidableEq V] : DecidableEq (SEntry V) := fun a b => by
-  cases a; cases b; simp only [SEntry.mk.injEq]; exact inferInstance
 
 abbrev Table (K V : Type) := AList K (SEntry V)
 
